@@ -256,4 +256,11 @@ func TestC17(t *testing.T) {
 		}
 		runPxScenario(t, idx, "proxy", sc, em)
 	}
+	// free-running stress with forged sources, judged by the source predicate
+	base := len(scs)
+	for i := 0; i < proxyFreeCount(); i++ {
+		if want(base + i) {
+			runProxyFree(t, base+i, 100+i, em)
+		}
+	}
 }
